@@ -63,6 +63,8 @@ def compile_funsor(expr: Funsor) -> OpProgram:
     for f in anf:
         if f in ids:
             continue  # constant or free variable
+        if isinstance(f, tuple):
+            continue  # Skip from Tuple directly to its elements.
         ids[f] = len(ids)
         if isinstance(f, Unary):
             arg_ids = (ids[f.arg],)
@@ -73,8 +75,6 @@ def compile_funsor(expr: Funsor) -> OpProgram:
         elif isinstance(f, Tuple):
             arg_ids = tuple(ids[arg] for arg in f.args)
             operations.append((make_tuple, arg_ids))
-        elif isinstance(f, tuple):
-            continue  # Skip from Tuple directly to its elements.
         else:
             raise NotImplementedError(type(f).__name__)
 
